@@ -21,8 +21,8 @@ def run(ctx):
                 "vice versa; a name without value; the sequence stopping anywhere), plus every required/Optional x positional-count "
                 "x keyword-subset binding of three arguments; fed to a real Broker; non-trivial = the stream reached the "
                 "ArgumentUnslicer/AnswerUnslicer")
-    ctx.assumptions = ["wire trees carry ASCII text only (a keyword name that is not valid UTF-8 is judged by the oracle and left out "
-                       "of the correspondence); set elements / dict keys are distinct and hashable",
+    ctx.assumptions = ["text VALUES in wire trees are ASCII (keyword NAMES are arbitrary byte strings: not UTF-8 -> Violation, "
+                       "Schema.utf8_valid compared with Python's decoder); set elements / dict keys are distinct and hashable",
                        "regexp constraints, Copyable/Failure constraints, Shared, their-reference gifts and the CallUnslicer stages "
                        "before the arguments are outside the model; RemoteInterface arguments: the receiver's side only (claimed "
                        "interface name vs declared), judged against `declared or a sub-interface`",
@@ -366,8 +366,7 @@ def run_call(ctx, S, E, tag, family, argspec, pos, kws, vocab=0, direct=None, pe
     elif not w.alive():
         rec["outcome"] = "dead-dupkey" if any("duplicate key" in e for e in w.recv_errors) else "dead"
         if w.recv_errors and all(e.startswith("UnicodeDecodeError") for e in w.recv_errors):
-            # (outside the model: keyword names are ASCII there; such cases are judged here and left out of the correspondence)
-            rec["outcome"] = "dead-nonutf8-name"
+            # the defect repaired by commit 0c0affc (model: au_nontext_name_violation = false gives "connection lost" too)
             ctx.fail("oracle/non-utf8-keyword-name-drops-connection", "a STRING token that is not valid UTF-8, standing where "
                      "ArgumentUnslicer expects a keyword NAME, raised UnicodeDecodeError in six.ensure_str(token): the whole connection "
                      "was lost instead of that one call failing with a Violation ('unknown argument'): %s; receive error %r"
@@ -440,6 +439,14 @@ def remote_sweep(ctx, S, E):
     return [r for r in recs if r]
 
 
+# keyword names that Python's strict UTF-8 decoder refuses (stray continuation byte, overlong forms, a surrogate, beyond
+# U+10FFFF, truncated sequences, 0xFF) and non-ASCII names it accepts (2-, 3-, 4-byte forms at their boundaries)
+NONTEXT_NAMES = [[168, 97], [192, 128], [193, 191], [224, 159, 191], [237, 160, 128], [244, 144, 128, 128], [245, 128, 128, 128],
+                 [97, 195], [226, 130], [240, 159, 152], [255], [97, 128], [240, 143, 191, 191]]
+TEXT_NAMES = [[195, 169], [194, 128], [223, 191], [224, 160, 128], [237, 159, 191], [238, 128, 128], [239, 191, 191],
+              [240, 144, 128, 128], [244, 143, 191, 191], [226, 130, 172, 97]]
+
+
 def framing_cases(S):
     """the `arguments` sequence with a count token that does not match what follows, tokens of the wrong kind where a
     count / a keyword name / a value is expected, and sequences that stop early -- for methods of 0..3 arguments.
@@ -476,7 +483,9 @@ def framing_cases(S):
             out.append((argspec, 0, [["wf", 4609434218613702656], five]))     # a float where a name is expected
             out.append((argspec, 0, [["wo", "list", []], five]))              # a list where a name is expected
             out.append((argspec, 0, [name("a"), five, name("zz"), five]))     # an unknown name after a known one
-            out.append((argspec, 0, [["ws", False, 2, [168, 97]], five]))     # a name that is not valid UTF-8
+            for bad in NONTEXT_NAMES + TEXT_NAMES:                            # names that are not UTF-8 / non-ASCII text
+                out.append((argspec, 0, [["ws", False, len(bad), bad], five]))
+                out.append((argspec, 1, [five, ["ws", False, len(bad), bad], five, name("b"), five]))
     return out
 
 
@@ -516,7 +525,53 @@ def flag_cases(S):
             out.append((flag, spec, 1, [five, name("a"), five]))
             out.append((flag, spec, 0, [name("z"), five]))
             out.append((flag, spec, 2, [five, five]))
+            # an unknown name that is text goes the flag's way, one that is not UTF-8 is a Violation before the flag is consulted
+            for bs in NONTEXT_NAMES[:6] + TEXT_NAMES[:6]:
+                out.append((flag, spec1, 1, [five, ["ws", False, len(bs), bs], five]))
     return out
+
+
+def method_name_cases(ctx, S, E):
+    """CallUnslicer stage 2: the method NAME of a hand-built call -- not UTF-8, non-ASCII text, unknown, empty -- must fail
+    that one call with a Violation (the stages before the arguments are not in the Coq model: oracle only)"""
+    from foolscap import call as callmod
+    five = ["wi", "INT", 5, 5]
+    for mname in [bytes(b) for b in NONTEXT_NAMES + TEXT_NAMES] + [b"nosuch", b"", b"m"]:
+        w = S.World(["a"], [int], None)
+        req = callmod.PendingRequest(1, None, None, "m")
+        w.cb.addRequest(req)
+        res = []
+        req.deferred.addBoth(res.append)
+
+        def body(enc):
+            oc, _ = enc.open(b"arguments")
+            enc.tok(S.tokens.INT, 1)
+            enc.wire(five)
+            enc.close(oc)
+        w.feed_call(1, body, methname=mname)
+        out = S.outcome_of(res)
+        case = dict(method_name=list(mname), arguments="1 5")
+        ctx.case(["method-name", list(mname)], nontrivial=True)
+        ran = len(w.target.calls)
+        ctx.hist("method_name_outcome", "invoked" if ran else out[0] if w.alive() else "dead")
+        if mname == b"m":
+            if ran != 1 or out[0] != "ok":
+                ctx.fail("oracle/not-delivered", "the conforming call m(5) was not delivered: %r" % (out,), replay=case)
+            continue
+        if ran:
+            ctx.fail("oracle/unchecked-argument-reached-user-code", "a call naming method %r ran remote_m: %r" % (mname, case), replay=case)
+        elif not w.alive():
+            if any("UnicodeDecodeError" in e for e in w.recv_errors):
+                ctx.fail("oracle/non-utf8-keyword-name-drops-connection", "a method name that is not valid UTF-8 raised UnicodeDecodeError in "
+                         "CallUnslicer.receiveChild (six.ensure_str): the whole connection was lost instead of that one call failing with a "
+                         "Violation: %r; receive error %r" % (case, w.recv_errors), replay=case)
+            else:
+                classify_dead(ctx, w, "method-name", case, "call")
+        elif out[0] not in ("violation-local", "violation-remote"):
+            ctx.fail("oracle/not-a-violation", "a call naming method %r was refused but the caller got %r instead of a Violation"
+                     % (mname, out), replay=case)
+        elif not w.probe():
+            ctx.fail("oracle/sibling-affected", "after a refused call the connection no longer serves other calls: %r" % (case,), replay=case)
 
 
 def call_cases(ctx, S, E):
@@ -525,7 +580,9 @@ def call_cases(ctx, S, E):
     S.family()
     for p in sorted(glob.glob(os.path.join(common.VERIF, "corpus", "C02", "call-*.json"))):
         w = json.load(open(p))
-        r = guarded(ctx, run_call, S, E, "corpus:" + os.path.basename(p), w.get("family", "corpus"), [tuple(x) for x in w["argspec"]], w["pos"], w["kws"])
+        raw = (w["raw"][0], w["raw"][1]) if "raw" in w else None
+        r = guarded(ctx, run_call, S, E, "corpus:" + os.path.basename(p), w.get("family", "corpus"), [tuple(x) for x in w["argspec"]],
+                    w.get("pos", []), w.get("kws", []), w.get("vocab", 0), None, None, raw, w.get("flags"))
         if r and w.get("expect") and r["outcome"] != w["expect"]:
             ctx.fail("oracle/regression-" + os.path.basename(p)[:-5], "corpus witness %s: expected %s, got %s" % (p, w["expect"], r["outcome"]), replay=w)
         recs.append(r)
@@ -541,6 +598,7 @@ def call_cases(ctx, S, E):
         recs.append(guarded(ctx, run_call, S, E, tag, "per-instance", [("a", cs, False)], [ws], [], 0, False, grp))
     for tag, argspec, pos, kws in FIXED_CALLS:
         recs.append(guarded(ctx, run_call, S, E, tag, "fixed", argspec, pos, kws))
+    guarded(ctx, lambda ctx_, S_, E_: method_name_cases(ctx_, S_, E_), S, E)
     for argspec, pos, kws in binding_cases(S):
         recs.append(guarded(ctx, run_call, S, E, "binding", "binding", argspec, pos, kws, 0, None, False))
     for argspec, count, items in framing_cases(S):
@@ -818,6 +876,24 @@ Eval vm_compute in map (fun x => let '(ms, items, ea, ek) := x in
                 bad("call", "model and implementation disagree on %s: model code %r (1 invoked with the same arguments, 2 violation, "
                     "3 connection lost, 4 invoked with other arguments, 5 failed with another exception), implementation %s %r %r"
                     % (str(r["case"])[:1500], m, r["outcome"], r.get("args"), r.get("kwargs")), dict(case=r["case"], model=m, impl=r["outcome"]))
+    # is-this-text: Schema.utf8_valid against Python's strict decoder, on the boundary byte strings and random ones
+    samples = NONTEXT_NAMES + TEXT_NAMES + [[ctx.rng.choice([97, 128, 191, 192, 194, 223, 224, 237, 239, 240, 244, 245, 159, 160, 143, 144])
+                                             for _ in range(ctx.rng.randint(1, 5))] for _ in range(ctx.n(150, 2000))]
+    body = "Local Open Scope Z_scope.\nEval vm_compute in map utf8_valid %s.\n" % coq_list([S.coq_zlist(b) for b in samples])
+    try:
+        (vals,) = ctx.coq_eval("C02_utf8", body, requires=REQ)
+    except common.CoqEvalError as e:
+        bad("broken", "the model could not be evaluated: " + str(e)[-1500:], None)
+        return
+    for b, m in zip(samples, vals):
+        ctx.traces += 1
+        try:
+            bytes(b).decode("utf-8")
+            real = True
+        except UnicodeDecodeError:
+            real = False
+        if m != real:
+            bad("utf8_valid", "model utf8_valid %r = %r, bytes.decode('utf-8') %s" % (b, m, "succeeds" if real else "raises"), dict(bytes=b))
     ACODE = {"callback": 1, "errback": 2, "dead": 3}
     for lo in range(0, len(answers), 300):
         chunk = [r for r in answers[lo:lo + 300] if r["outcome"] in ACODE]
